@@ -246,11 +246,11 @@ CHECKS["C06"] = dict(
     text="One operation per (location x style x explode x primitive/array/object) for OpenAPI 3.x, per collectionFormat for 2.0, and "
     "JSON `content` parameters, with JSON / form / multipart / text bodies and base URLs with and without base path and trailing slash; positive "
     "cases are generated, their raw values captured before serialisation, and sent through the requests transport to a recording "
-    "server (and a share through the WSGI transport to a capture app); reference decoders written from the OpenAPI style tables must "
+    "server (and a share through the WSGI and ASGI transports to capture apps); reference decoders written from the OpenAPI style tables must "
     "recover the generated values from the raw request line / headers / cookies, the path must be base path + template with a "
     "percent-encoded value free of raw reserved characters, bodies must round-trip, Content-Type must equal the media type and no "
     "undeclared header may appear.",
-    note="Item alphabets exclude the style's own delimiter; comparison is up to string coercion; ASGI is not exercised.",
+    note="Item alphabets exclude the style's own delimiter; comparison is up to string coercion; the WSGI and ASGI transports are exercised with capture applications (raw scope / environ), about a quarter of the cases.",
     technique="runtime monitoring: raw-value capture + reference style decoders over the server-side request log",
     design_ref="DESIGN.md#c06",
 )
